@@ -393,6 +393,7 @@ inductive Outcome (α : Type) where
   | failure (reason : Option Reason)
   /-- a Python exception / the NaN direction: outside the skeleton -/
   | abort (what : String)
+  deriving DecidableEq, Repr
 
 def probeFn (l : List (α × List α)) (i : Nat) : α × List α := l.getD i (0, [])
 
@@ -414,6 +415,17 @@ structure RunRes (α : Type) where
   out : Outcome α
   wit : Option (Witness α)
   calls : List Call
+
+/-- `if eigenvalue < 0.0 and eig_steps < 5:` — is the subspace minimisation run in this pass? -/
+def IterOra.doSub (cfg : Cfg) (o : IterOra α) : Bool :=
+  match o.eig1 with
+  | .ok _ ev nit => decide (ev < 0) && decide (nit < cfg.subspaceMaxEigSteps)
+  | _ => false
+
+/-- `coords.position` when `test_convergence` is called in this pass: after `take_uphill_step`,
+    and after the subspace minimisation when that is run -/
+def IterOra.tested (cfg : Cfg) (o : IterOra α) : List α :=
+  if o.doSub cfg then o.sub else o.stepped
 
 /-- the tail of one loop pass once the convergence test has succeeded at `x` -/
 def finish (cfg : Cfg) (env : Env α) (x : List α) (o : IterOra α) (fl : Option Reason)
@@ -447,14 +459,11 @@ def runLoop (cfg : Cfg) (env : Env α) :
     match o.eig1 with
     | .refused r => some ⟨.failure (some r), none, tr ++ [.eig]⟩
     | .nanDirection _ => some ⟨.abort "nan-direction", none, tr ++ [.eig]⟩
-    | .ok _ ev nit =>
-      -- take_uphill_step, then subspace minimisation when λ < 0 and the eigen-solver was quick
-      let doSub := decide (ev < 0) && decide (nit < cfg.subspaceMaxEigSteps)
-      let x1 := if doSub then o.sub else o.stepped
-      let tr := tr ++ (if doSub then [.eig, .step, .sub] else [.eig, .step])
-      let lower := activeLower x1 env.lo
-      let upper := activeUpper x1 env.up
-      match testConvergence cfg.convAxis cfg.convCmp o.gradConv lower upper env.tol with
+    | .ok _ _ _ =>
+      let x1 := o.tested cfg
+      let tr := tr ++ (if o.doSub cfg then [.eig, .step, .sub] else [.eig, .step])
+      match testConvergence cfg.convAxis cfg.convCmp o.gradConv (activeLower x1 env.lo)
+              (activeUpper x1 env.up) env.tol with
       | .error e => some ⟨.abort e, none, tr⟩
       | .ok false => runLoop cfg env n x1 fl (tr ++ [.conv false]) os
       | .ok true => some (finish cfg env x1 o fl (tr ++ [.conv true]))
